@@ -214,7 +214,7 @@ def images(fn):
             "snap": None}
 
 
-def classify(sermod, fn, user, old_data, new_data):
+def classify(sermod, fn, user, old_data, new_data, own_data=None):
     """What a fresh Serializer sees in the directory."""
     s = sermod.Serializer(fn, 16, False, (lambda p, d: None) if user else None, user_deserializer if user else None, None)
     if not os.path.exists(fn):
@@ -227,6 +227,8 @@ def classify(sermod, fn, user, old_data, new_data):
         return "old"
     if new_data is not None and repr(got) == repr(new_data):
         return "new"
+    if own_data is not None and repr(got) == repr(own_data):
+        return "own"
     return "torn:other-value"
 
 
@@ -253,6 +255,13 @@ class Scenario(object):
 
     def fin(self):
         return self.name != "receive-reject"
+
+    def own_between(self):
+        """The node runs a log compaction of its own (inline dump + checkSerializing) between two chunks."""
+        return self.name.startswith("receive-own-dump-between")
+
+    def own_data(self):
+        return sc.mk_data(5, 3, False) if self.own_between() else None
 
     def old_data(self):
         return sc.mk_data(3, 2, False) if self.old else None
@@ -309,10 +318,19 @@ class Scenario(object):
             chunks = chunks[1:]               # refused: nothing may be written
         with Interceptor(sermod, fn, kill_at) as ic:
             rcv = sermod.Serializer(fn, self.chunk, False, None, None, None)
-            for c in chunks:
+            own_at = len(chunks) // 2 if self.own_between() else None
+            for i, c in enumerate(chunks):
                 if ic.dead:
                     break
+                if i == own_at:
+                    with frozen_time():
+                        rcv.serialize(self.own_data(), 5)
+                    if not ic.dead:
+                        rets.append(sc.STATUS[rcv.checkSerializing()[0]])
+                    if ic.dead:
+                        break
                 rets.append(bool(rcv.setTransmissionData(c)))
+            self.own_at = own_at
             if not ic.dead:
                 # what SyncObj.__loadDumpFile(clearJournal=True) does with a received snapshot (D70): install or reject
                 rets.append(bool(rcv.finishIncoming(self.fin())))
@@ -334,6 +352,7 @@ def scenarios(tier):
         out.append(Scenario("receive-restart-mid", "receive", old, chunk=32))
         out.append(Scenario("receive-no-first", "receive", old, chunk=32))
         out.append(Scenario("receive-reject", "receive", old, chunk=32))
+        out.append(Scenario("receive-own-dump-between", "receive", old, chunk=32))
         if hasattr(os, "fork"):
             out.append(Scenario("fork", "serialize", old, fork=True))
     out.append(Scenario("inline-big", "serialize", True, big=True))
@@ -352,7 +371,11 @@ def model_case(sc_, fs0, ops_real):
         pieces = [o.split(" ")[2] if len(o.split(" ")) > 2 else "" for o in ops_real if o.startswith("write tmp")]
         fail = not any(o.startswith("rename") for o in ops_real)
         return {"k": "crash", "fs": fs0, "inc": False, "what": "serialize", "p": pieces, "fail": fail, "fork": bool(sc_.fork)}
-    return {"k": "crash", "fs": fs0, "inc": False, "what": "receive", "fin": sc_.fin(),
+    extra = {}
+    if sc_.own_between():
+        extra = {"own_at": sc_.own_at, "own_p": [o.split(" ")[2] if len(o.split(" ")) > 2 else "" for o in ops_real
+                                                 if o.startswith("write tmp ")]}
+    return {"k": "crash", "fs": fs0, "inc": False, "what": "receive", "fin": sc_.fin(), **extra,
             "chunks": [sc.chunk_repr(c) for c in sc_.chunks]}
 
 
@@ -363,7 +386,8 @@ def judge(sc_, cls, k, ops_full):
         k + 1, len(ops_full), (ops_full[k - 1][:40] if k else "nothing"), sc_.what, sc_.name)
     if cls.startswith("torn"):
         return {"signature": "serializer.dump:torn-at-crash-point:" + sc_.what,
-                "what": "%s a fresh Serializer finds a dump file that is neither the old nor the new snapshot (%s)" % (at, cls),
+                "what": "%s a fresh Serializer finds a dump file that is not ONE complete snapshot (neither the old one, nor the "
+                        "node's own new one, nor the received one): %s" % (at, cls),
                 "replay": {"component": "corr.storage_dump", "scenario": sc_.key(), "crash_after": k}}
     if cls == "absent" and sc_.old:
         return {"signature": "serializer.dump:missing-at-crash-point:" + sc_.what,
@@ -408,6 +432,8 @@ def run_scenario(ctx, sermod, sc_, base):
     completes = any(o.startswith("rename") for o in ops_full)
     old_data = expect_tuple(sc_.old_data(), sc_.user) if sc_.old else None
     new_data = expect_tuple(sc_.new_data(), sc_.user) if (completes and not sc_.bad) else None
+    own_img = "".join(o.split(" ")[2] for o in ops_full if o.startswith("write tmp ") and len(o.split(" ")) > 2) \
+        if sc_.own_between() else None
     cases = 0
     DEATHS = ("exit", "SIGKILL", "SIGTERM", "SIGABRT")
     points = []
@@ -428,7 +454,7 @@ def run_scenario(ctx, sermod, sc_, base):
         fnk = sc_.prepare(sermod, dk)
         ops_k, rets_k = sc_.execute(sermod, fnk, k if k < len(ops_full) else None, death)
         img = images(fnk)
-        cls = classify(sermod, fnk, sc_.user, old_data, new_data)
+        cls = classify(sermod, fnk, sc_.user, old_data, new_data, sc_.own_data())
         shutil.rmtree(dk)
         cases += 1
         cov["ops"] += 1
@@ -440,7 +466,8 @@ def run_scenario(ctx, sermod, sc_, base):
             continue
         mimg = mout["images"][k]
         mcls = "absent" if mimg["dump"] is None else ("old" if mimg["dump"] == fs0["dump"] else
-                                                      ("new" if completes and mimg["dump"] == new_img else "torn"))
+                                                      ("new" if completes and mimg["dump"] == new_img else
+                                                       ("own" if own_img is not None and mimg["dump"] == own_img else "torn")))
         if img != mimg or cls.split(":")[0] != mcls:
             if len(dis) < 2:
                 dis.append({"input": {"scenario": sc_.key(), "crash_after": k, "op": ops_full[k - 1] if k else None},
@@ -472,6 +499,56 @@ def run_scenario(ctx, sermod, sc_, base):
     return cases, dis, viols, cov
 
 
+def own_dump_between_fork(ctx, sermod):
+    """The same interleaving with a REAL fork child writing the own dump (no interception, no kill): the dump file is
+    judged at every call boundary — it must always be ONE complete snapshot (old, own, or received), never a mix."""
+    if not hasattr(os, "fork"):
+        return 0, [], {}
+    sc_ = Scenario("receive-own-dump-between-fork", "receive", True, fork=True, chunk=32)
+    d = ctx.tmpdir()
+    fn = sc_.prepare(sermod, d)
+    snd = sermod.Serializer(None, sc_.chunk, False, None, None, None)
+    with frozen_time():
+        snd.serialize(sc_.new_data(), 7)
+    snd.checkSerializing()
+    chunks = []
+    while True:
+        c = snd.getTransmissionData("f")
+        chunks.append(c)
+        if c[2]:
+            break
+    rcv = sermod.Serializer(fn, sc_.chunk, True, None, None, None)
+    seen, viols, steps = {}, [], []
+
+    def look(step):
+        cls = classify(sermod, fn, False, sc_.old_data(), sc_.new_data(), sc_.own_data())
+        seen[cls.split(":")[0]] = seen.get(cls.split(":")[0], 0) + 1
+        steps.append(step)
+        if (cls.startswith("torn") or cls == "absent") and not viols:
+            viols.append({"signature": "serializer.dump:mixed-after-own-dump-between-chunks",
+                          "what": "the node wrote a dump of its own (fork child) after %d of %d chunks of an incoming snapshot; after "
+                                  "step '%s' the dump file on disk is not ONE complete snapshot (old / own / received): %s — steps so "
+                                  "far: %s" % (len(chunks) // 2, len(chunks), step, cls, steps[-6:]),
+                          "replay": {"component": "corr.storage_dump", "scenario": sc_.key(), "fork_boundaries": True}})
+    for i, c in enumerate(chunks):
+        if i == len(chunks) // 2:
+            with sc.guard_exit():
+                rcv.serialize(sc_.own_data(), 5)
+            pid = sc.priv(rcv, "pid")
+            if pid > 0:
+                os.waitid(os.P_PID, pid, os.WEXITED | os.WNOWAIT)
+            look("own dump child finished")
+            rcv.checkSerializing()
+        rcv.setTransmissionData(c)
+        look("chunk %d" % i)
+    rcv.finishIncoming(True)
+    look("finishIncoming(True)")
+    inc = sc.priv(rcv, "incomingTransmissionFile")
+    if inc is not None:
+        inc.close()
+    return len(steps), viols, seen
+
+
 def run(ctx):
     t0 = time.time()
     sermod = sc.load(ctx.repo)
@@ -494,6 +571,10 @@ def run(ctx):
             cov["primitives"][k] = cov["primitives"].get(k, 0) + x
         if len(samples) < 2:
             samples.append({"scenario": sc_.key(), "crash_points": n, "classes": c["classes"]})
+    n, v, seen = own_dump_between_fork(ctx, sermod)
+    cases += n
+    viols.extend(v)
+    cov["own_dump_between_chunks_fork"] = seen
     res = {"cases": cases, "distinct": cases, "coverage": cov, "samples": samples, "disagreements": dis[:3],
            "violations": viols[:3], "wall_s": round(time.time() - t0, 2)}
     import ctypes
@@ -501,7 +582,11 @@ def run(ctx):
     missing += [k for k in ("rename tmp->dump over existing dump", "rename tmp->dump creating first dump",
                             "rename incoming tmp1->dump", "remove tmp1", "openW tmp", "openW tmp1", "write")
                 if not cov["primitives"].get(k)]
+    if not cov["scenarios"].get("receive-own-dump-between") or not cov["classes"].get("own"):
+        missing.append("own dump between the chunks of an incoming snapshot")
     if hasattr(os, "fork"):
+        if not (cov.get("own_dump_between_chunks_fork") or {}).get("own"):
+            missing.append("own fork dump between the chunks of an incoming snapshot")
         missing += [k for k in ("child killed by signal before the rename", "child exits non-zero before the rename")
                     if not cov["primitives"].get(k)]
     if hasattr(ctypes, "windll"):
@@ -519,5 +604,8 @@ def replay(ctx, violation):
     sermod = sc.load(ctx.repo)
     key = violation["replay"]["scenario"]
     sc_ = Scenario(key[0], key[1], key[2], user=key[3], fork=key[4], bad=key[5], n=key[6], fail_after=key[7], chunk=key[8], big=key[9])
+    if violation["replay"].get("fork_boundaries"):
+        n, v, seen = own_dump_between_fork(ctx, sermod)
+        return {"violated": bool(v), "violations": v, "classes": seen}
     n, d, v, c = run_scenario(ctx, sermod, sc_, ctx.tmpdir())
     return {"violated": bool(v), "violations": v, "disagreements": d, "classes": c["classes"]}
